@@ -1,4 +1,5 @@
 import Bch.Drive.C10
+import Bch.Model.MerkleSelect
 namespace Bch.Drive.C11
 open Bch Bch.Drive Bch.Model Bch.Drive.C10
 
@@ -15,7 +16,8 @@ def run : Runner
     -- `TxInSet` compares hashes, so a duplicate of a chosen transaction is chosen as well
     let chosen := (leaves.zip sel).filterMap fun (h, b) => if b then some h else none
     let mb := leaves.map fun h => chosen.contains h
-    let (msg, ixs) := Merkle.buildMsg comb leaves (fun i => mb.getD i false) zero32
+    -- `NewMerkleBlockWithTxnSet` as modelled (selection by hash membership, Model/MerkleSelect.lean)
+    let (msg, ixs) := MerkleSelect.buildWithTxnSet comb leaves chosen zero32
     let model := s!"EXT {ext} RES {mmsgTok msg} {natsTok ixs} {extractTok msg}"
     -- C11 on the implementation's observation: extraction returns the merkle root and exactly the chosen hashes/positions
     let distinct := leaves.eraseDups.length == leaves.length
